@@ -24,12 +24,22 @@ use crate::trace;
 #[derive(Clone, Copy, Debug, Serialize, Deserialize, PartialEq, Eq)]
 pub enum SOp {
     /// SyncWrapper::new with a creation closure that succeeds / fails
-    New { fail: bool },
+    New {
+        fail: bool,
+        /// the destructor of the wrapped value panics (after it has done its work)
+        #[serde(default)]
+        dtor_panics: bool,
+    },
     /// interact on the `w % wrappers`-th wrapper of this client
     Interact { w: u8, panic: bool, cancellable: bool },
     TryLock { w: u8 },
     Poisoned { w: u8 },
-    DropWrapper { w: u8 },
+    /// `unwinding`: the wrapper is dropped by a panic unwinding the client's stack
+    DropWrapper {
+        w: u8,
+        #[serde(default)]
+        unwinding: bool,
+    },
     Nop,
 }
 
@@ -44,6 +54,7 @@ pub struct SScenario {
 /// The wrapped value: its destructor is logged with the actor that runs it.
 pub struct Val {
     pub id: u32,
+    pub dtor_panics: bool,
 }
 
 impl Drop for Val {
@@ -61,6 +72,11 @@ impl Drop for Val {
             v.dtor_actor = Some(a);
             v.dtor_seq = seq;
         });
+        // (never a second panic on a thread that is already unwinding: that would abort)
+        if self.dtor_panics && !std::thread::panicking() {
+            try_with_s(|w| w.fault("destructor_panics"));
+            std::panic::panic_any(InjectedPanic(id));
+        }
     }
 }
 
@@ -149,7 +165,7 @@ impl SWorld {
 
 fn run_sop(actor: usize, op: SOp) {
     match op {
-        SOp::New { fail } => {
+        SOp::New { fail, dtor_panics } => {
             let id = with_s(|w| {
                 w.ops += 1;
                 w.vals.push(ValRec::default());
@@ -170,7 +186,7 @@ fn run_sop(actor: usize, op: SOp) {
                 if fail {
                     Err(id)
                 } else {
-                    Ok(Val { id })
+                    Ok(Val { id, dtor_panics })
                 }
             });
             let mut st = DriveStats::default();
@@ -324,7 +340,7 @@ fn run_sop(actor: usize, op: SOp) {
                 }
             });
         }
-        SOp::DropWrapper { w: wi } => {
+        SOp::DropWrapper { w: wi, unwinding } => {
             let taken = with_s(|w| {
                 w.ops += 1;
                 let l = &mut w.wrappers[actor];
@@ -338,7 +354,21 @@ fn run_sop(actor: usize, op: SOp) {
             let Some((id, wr)) = taken else { return };
             trace!("client{} drops wrapper of val #{}", actor, id);
             with_s(|w| w.vals[id as usize].wrapper_dropped = true);
-            if catch_unwind(AssertUnwindSafe(move || drop(wr))).is_err() {
+            if unwinding {
+                // the owner of the wrapper panics: the wrapper is dropped while the stack unwinds
+                with_s(|w| w.fault("wrapper_dropped_by_unwinding"));
+                let r = catch_unwind(AssertUnwindSafe(move || {
+                    let _owned = wr;
+                    std::panic::panic_any(InjectedPanic(id));
+                }));
+                let injected = matches!(&r, Err(p) if p.downcast_ref::<InjectedPanic>().is_some());
+                if !injected {
+                    with_s(|w| {
+                        let m = engine::take_last_panic().unwrap_or_default();
+                        w.violate("unexpected_panic", format!("dropping the wrapper of value #{id} during unwinding panicked: {m}"));
+                    });
+                }
+            } else if catch_unwind(AssertUnwindSafe(move || drop(wr))).is_err() {
                 with_s(|w| {
                     let m = engine::take_last_panic().unwrap_or_default();
                     w.violate("unexpected_panic", format!("dropping the wrapper of value #{id} panicked: {m}"));
@@ -595,14 +625,14 @@ pub fn gen_sync(rng: &mut Rng, thorough: bool) -> SScenario {
     let mut clients = Vec::new();
     for _ in 0..n_clients {
         let n_ops = rng.range(2, if thorough { 10 } else { 7 });
-        let mut ops = vec![SOp::New { fail: rng.below(100) < 10 }];
+        let mut ops = vec![SOp::New { fail: rng.below(100) < 10, dtor_panics: rng.below(100) < 10 }];
         for _ in 1..n_ops {
             let op = match rng.weighted(&[12, 45, 6, 8, 18]) {
-                0 => SOp::New { fail: rng.below(100) < 15 },
+                0 => SOp::New { fail: rng.below(100) < 15, dtor_panics: rng.below(100) < 12 },
                 1 => SOp::Interact { w: rng.below(3) as u8, panic: rng.below(100) < 20, cancellable: rng.below(100) < 45 },
                 2 => SOp::TryLock { w: rng.below(3) as u8 },
                 3 => SOp::Poisoned { w: rng.below(3) as u8 },
-                _ => SOp::DropWrapper { w: rng.below(3) as u8 },
+                _ => SOp::DropWrapper { w: rng.below(3) as u8, unwinding: rng.below(100) < 25 },
             };
             ops.push(op);
         }
@@ -663,6 +693,16 @@ impl Harness for SyncW {
         }
         for i in 0..sc.clients.len() {
             for k in 0..sc.clients[i].len() {
+                if let SOp::New { fail, dtor_panics: true } = sc.clients[i][k] {
+                    let mut c = sc.clone();
+                    c.clients[i][k] = SOp::New { fail, dtor_panics: false };
+                    out.push(c);
+                }
+                if let SOp::DropWrapper { w, unwinding: true } = sc.clients[i][k] {
+                    let mut c = sc.clone();
+                    c.clients[i][k] = SOp::DropWrapper { w, unwinding: false };
+                    out.push(c);
+                }
                 if let SOp::Interact { w, panic, cancellable } = sc.clients[i][k] {
                     if cancellable {
                         let mut c = sc.clone();
@@ -706,11 +746,11 @@ impl Harness for SyncW {
             let names: Vec<String> = c
                 .iter()
                 .map(|o| match o {
-                    SOp::New { fail } => format!("New{}", if *fail { "(fail)" } else { "" }),
+                    SOp::New { fail, dtor_panics } => format!("New{}{}", if *fail { "(fail)" } else { "" }, if *dtor_panics { "!dtor_panics" } else { "" }),
                     SOp::Interact { panic, cancellable, .. } => format!("Interact{}{}", if *panic { "!panic" } else { "" }, if *cancellable { "+canc" } else { "" }),
                     SOp::TryLock { .. } => "TryLock".into(),
                     SOp::Poisoned { .. } => "Poisoned".into(),
-                    SOp::DropWrapper { .. } => "Drop".into(),
+                    SOp::DropWrapper { unwinding, .. } => format!("Drop{}", if *unwinding { "!unwinding" } else { "" }),
                     SOp::Nop => "Nop".into(),
                 })
                 .collect();
